@@ -135,6 +135,8 @@ def run(cx):
             if A != R.const_int("frame::serial::HANDSHAKE_SYN_ACK_FRAME_PAYLOAD_SIZE") + ov:
                 inst.violation("frame::serial::write_handshake_syn_ack", "SYN-ACK length", "writer literal length %d differs from the reader's expected size" % A)
 
+    from props.shared import syn_constructed_once
+    syn_constructed_once(cx, "C18.d")
 
 SELFTEST = [
     {"name": "raise HANDSHAKE_RESEND_COUNT to 100 at the server",
